@@ -328,7 +328,7 @@ class ExprMixin:
     def _div(self, a, b, n, fr):
         ta = self.static_ctype(n.operand1, fr) if n is not None else None
         tb = self.static_ctype(n.operand2, fr) if n is not None else None
-        if ta in INT_TYPES and tb in INT_TYPES:
+        if ta in INT_TYPES and tb in INT_TYPES and getattr(fr.module, "cdivision", True):
             # C integer division (cdivision=True): truncation toward zero
             if is_sym(a) or is_sym(b):
                 q = abs(a) // abs(b)
@@ -364,7 +364,7 @@ class ExprMixin:
             return a % b
         ta = self.static_ctype(n.operand1, fr)
         tb = self.static_ctype(n.operand2, fr)
-        if ta in INT_TYPES and tb in INT_TYPES and not (is_sym(a) or is_sym(b)):
+        if ta in INT_TYPES and tb in INT_TYPES and not (is_sym(a) or is_sym(b)) and getattr(fr.module, "cdivision", True):
             if b == 0:
                 raise CFault("integer modulo by zero")
             if "u" in ta[0] or "u" in tb[0]:
@@ -676,13 +676,24 @@ class ExprMixin:
             acc.append(v)
 
     def x_DictComprehensionAppendNode(self, n, fr):
-        fr.comp_stack[-1][self.eval(n.key_expr, fr)] = self.eval(n.value_expr, fr)
+        if hasattr(n, "dict_item") and n.dict_item is not None:
+            k_, v_ = n.dict_item.key, n.dict_item.value
+        else:
+            k_, v_ = n.key_expr, n.value_expr
+        fr.comp_stack[-1][self.eval(k_, fr)] = self.eval(v_, fr)
+
+    def e_AssignmentExpressionNode(self, n, fr):
+        a = n.assignment
+        v = self.eval(a.rhs, fr)
+        self.assign(a.lhs, v, fr)
+        return v
 
     def e_GeneratorExpressionNode(self, n, fr):
         acc = []
         fr.comp_stack.append(acc)
         try:
-            body = n.def_node.gbody.body if hasattr(n, "def_node") else n.loop
+            dn = getattr(n, "def_node", None)
+            body = dn.gbody.body if dn is not None else n.loop
             self.exec(body, fr)
         finally:
             fr.comp_stack.pop()
